@@ -571,6 +571,31 @@ class Script:
                     except (EOFError, OSError):
                         break
             return {'ret': n}
+        if o == 'fail_ctrl_send':
+            # environment fault on the parent side of a remote worker: the k-th send on its control connection (counted from now)
+            # finds the connection gone (peer hung up): the socket is shut down and the send fails with BrokenPipeError
+            import socket as _so
+            w = self.obj(op['var'])
+            real = w._ctrl_sock
+            kth = op['k']
+
+            class Faulty:
+                n = 0
+
+                def sendall(fs, data, *a):
+                    Faulty.n += 1
+                    if Faulty.n == kth:
+                        try:
+                            real.shutdown(_so.SHUT_RDWR)
+                        except OSError:
+                            pass
+                        raise BrokenPipeError(32, 'Broken pipe')
+                    return real.sendall(data, *a)
+
+                def __getattr__(fs, name):
+                    return getattr(real, name)
+            w._ctrl_sock = Faulty()
+            return {'ret': True}
         if o == 'mux_drain':
             # a consumer multiplexing the (caller-supplied) results pipe the way the Pool does: mp.connection.wait + recv
             # until an end-of-results message or EOF arrives
